@@ -22,6 +22,7 @@
 //   replace github.com/blues/jsonata-go => /repo
 //   EOF
 //   cp /verif/harness/vectors/dates/main.go . && go run . /tmp/dates/out
+//   (compile /verif/coq Base, Model/LibDate.v, Model/LibFormatDate.v, Spec/C19.v, Proofs/LibDateProofs.v first)
 //   cd /tmp/dates/out && coqc -Q /verif/coq JV -Q . DV DV.v
 //   ls V_*.v | xargs -P 12 -n 1 sh -c 'timeout 3000 coqc -Q /verif/coq JV -Q . DV $0 > $0.log 2>&1'
 //   grep -L "bad = \[\]" V_*.v.log        # must print nothing
@@ -268,6 +269,7 @@ func needFor(t time.Time, picture string) {
 
 const dvSource = `(* generated by /verif/harness/vectors/dates/main.go — checker for the date vectors *)
 From JV Require Import Base.Bytes Base.Utf8 Base.Res Model.LibDate Model.LibFormatDate.
+From JV Require Proofs.LibDateProofs.
 Open Scope Z_scope.
 
 Inductive xs := XOk (h : string) | XErr | XPanic | XTimeout.
@@ -313,7 +315,8 @@ Inductive vcase :=
 | VTo (s : string) (pic tz : option string) (e : xz)
 | VFmt (sec ns off : Z) (name pic : string) (e : xs)
 | VParse (layout value : string) (e : option (Z * Z * Z * string))
-| VCal (days y m d wd yd iy iw : Z).
+| VCal (days y m d wd yd iy iw : Z)
+| VFi (n : Z) (layout : string) (e : xs).
 
 Definition check (tab : list (string * list (Z * xs))) (c : vcase) : bool :=
   match c with
@@ -334,6 +337,10 @@ Definition check (tab : list (string * list (Z * xs))) (c : vcase) : bool :=
       let '(iy', iw') := iso_week days in
       (y' =? y) && (m' =? m) && (d' =? d) && (weekday_of_days days =? wd) && (yearday days =? yd)
       && (iy' =? iy) && (iw' =? iw) && (days_of_civil y m d =? days)
+  | VFi n layout e =>
+      (* the FormatNumber facts assumed by the inverse-law theorem (hypotheses fi_year, fi_2,
+         fi_2neg of Proofs/LibDateProofs.v) hold of the real FormatNumber *)
+      agree_s (Proofs.LibDateProofs.fi_example n (unhex layout)) e
   end.
 `
 
@@ -519,6 +526,11 @@ func emitParse(layout, value string) {
 		panic("time.Parse panicked or hung: " + layout + " / " + value)
 	}
 	emit(fmt.Sprintf("VParse %s%%string %s%%string %s", hx(layout), hx(value), e))
+}
+
+func emitFi(n int, layout string) {
+	r := guarded(func() (string, error) { return jxpath.FormatNumber(float64(n), layout, decimalFormat) })
+	emit(fmt.Sprintf("VFi %s %s%%string %s", zlit(int64(n)), hx(layout), r.coq()))
 }
 
 func emitCal(days int64) {
@@ -951,6 +963,15 @@ func main() {
 			emitParse(l, v)
 			emitParse(l, corrupt(rng, v))
 		}
+	}
+	flush()
+
+	// ---------- H. the FormatNumber facts the inverse-law theorem assumes ----------
+	for n := 1000; n <= 9999; n++ {
+		emitFi(n, "1")
+	}
+	for n := -99; n <= 99; n++ {
+		emitFi(n, "01")
 	}
 	flush()
 
